@@ -468,6 +468,251 @@ theorem sendPrepared_judged (c : Ctx) (s : S) (j : J) (pl : Bytes) (binary : Boo
   · have := encodeFrame_len2 _ _ _ _ _ _ _ henc
     simp only [List.length_append]; omega
 
+/-! ### the streaming API (`beginMessage`, `sendMessageFrame`*, `endMessage`) -/
+
+/-- the send-side frame state is not touched by the queue machinery -/
+theorem SendEq.frameFields {a b : S} (h : SendEq a b) :
+    b.frameLen = a.frameLen ∧ b.frameKey = a.frameKey ∧ b.frameMasking = a.frameMasking ∧ b.framePtr = a.framePtr ∧
+    b.sendSt = a.sendSt ∧ b.sendOpcode = a.sendOpcode ∧ b.begun = a.begun := by
+  unfold SendEq at h
+  refine ⟨?_, ?_, ?_, ?_, ?_, ?_, ?_⟩ <;> rw [h]
+
+/-- the sender is inside a streamed message -/
+structure StreamSt (c : Ctx) (s : S) (binary first : Bool) : Prop where
+  ok : SenderOk c s
+  begun : s.begun = true
+  op : s.sendOpcode = (if binary then 2 else 1)
+  st : s.sendSt = (if first then .messageBegin else .insideMessage)
+
+theorem drawKey_fields (s : S) :
+    (drawKey s).1.sendSt = s.sendSt ∧ (drawKey s).1.sendOpcode = s.sendOpcode ∧ (drawKey s).1.begun = s.begun ∧
+    (drawKey s).1.cfg = s.cfg ∧ (drawKey s).1.st = s.st ∧ (drawKey s).1.lost = s.lost ∧ wire (drawKey s).1 = wire s := by
+  unfold drawKey; split <;> exact ⟨rfl, rfl, rfl, rfl, rfl, rfl, rfl⟩
+
+/-- header octets written by `beginMessageFrame` -/
+def frameHeader (op : Nat) (key : Option Abverif.Xor.Key) (l7 : Nat) (el : Bytes) : Bytes :=
+  [b0 false 0 op, b1 key.isSome l7] ++ el ++ (match key with | some k => Key.bytes k | none => [])
+
+/-- one `sendMessageFrame(payload)` writes exactly the frame `encodeFrame` would build (FIN clear) -/
+theorem sendMessageFrame_wire (c : Ctx) (s : S) (binary first sync : Bool) (pl : Bytes) (h : StreamSt c s binary first)
+    (hlen : pl.length < 2 ^ 63) :
+    ∃ raw, encodeFrame false 0 (if first then (if binary then 2 else 1) else 0) (drawKey s).2 s.cfg.applyMask pl = some raw ∧
+      wire (sendMessageFrame s pl sync) = wire s ++ raw ∧ StreamSt c (sendMessageFrame s pl sync) binary false := by
+  have hk := drawKey_fields s
+  have hst : ¬ s.st ≠ .opened := by rw [h.ok.st]; simp
+  have hopen : s.st ≠ .closed := by rw [h.ok.st]; decide
+  -- the length encodes
+  obtain ⟨l7, el, hel⟩ : ∃ l7 el, encodeLen pl.length = some (l7, el) := by
+    unfold encodeLen
+    by_cases a : pl.length ≤ 125
+    · exact ⟨pl.length, [], by simp [a]⟩
+    · by_cases b : pl.length ≤ 0xFFFF
+      · exact ⟨126, beBytes 2 pl.length, by simp [a, b]⟩
+      · have d : pl.length ≤ 0x7FFFFFFFFFFFFFFF := by omega
+        exact ⟨127, beBytes 8 pl.length, by simp [a, b, d]⟩
+  have hsst : (s.sendSt = .messageBegin ∨ s.sendSt = .insideMessage) := by
+    rw [h.st]; cases first <;> simp
+  have hop : (if (drawKey s).1.sendSt = .messageBegin then (drawKey s).1.sendOpcode else 0)
+      = (if first then (if binary then 2 else 1) else 0) := by
+    rw [hk.1, hk.2.1, h.st, h.op]; cases first <;> simp
+  -- the state after the header went out
+  generalize hhdr : frameHeader (if first then (if binary then 2 else 1) else 0) (drawKey s).2 l7 el = header
+  have hcore : beginMessageFrameCore s pl.length
+      = some (enterFrame (sendData (setFrameState (drawKey s).1 pl.length (drawKey s).2
+          (if first then (if binary then 2 else 1) else 0)) header)) := by
+    unfold beginMessageFrameCore
+    have c1 : (!(decide (s.sendSt = .messageBegin) || decide (s.sendSt = .insideMessage))) = false := by
+      rcases hsst with e | e <;> simp [e]
+    have c2 : ¬ pl.length > 0x7FFFFFFFFFFFFFFF := by omega
+    simp only [c1, Bool.false_eq_true, if_false, c2, hel, hop]
+    rw [← hhdr]
+    rfl
+  generalize hs1 : setFrameState (drawKey s).1 pl.length (drawKey s).2 (if first then (if binary then 2 else 1) else 0) = s1 at hcore
+  have hs1f : s1.st = s.st ∧ s1.lost = s.lost ∧ s1.cfg = s.cfg ∧ wire s1 = wire s ∧ s1.begun = s.begun ∧
+      s1.sendOpcode = s.sendOpcode ∧ s1.frameLen = pl.length ∧ s1.frameKey = (drawKey s).2 ∧ s1.framePtr = 0 ∧
+      s1.frameMasking = ((drawKey s).2.isSome && decide (pl.length > 0) && s.cfg.applyMask) := by
+    rw [← hs1]
+    exact ⟨hk.2.2.2.2.1, hk.2.2.2.2.2.1, hk.2.2.2.1, hk.2.2.2.2.2.2, hk.2.2.1, hk.2.1, rfl, rfl, rfl, by
+      show ((drawKey s).2.isSome && decide (pl.length > 0) && (drawKey s).1.cfg.applyMask) = _; rw [hk.2.2.2.1]⟩
+  have e1 := sendData_SendEq s1 header false 0
+  have w1 := sendData_wire s1 header false 0 (by rw [hs1f.1]; exact hopen) (by rw [hs1f.2.1, hs1f.2.2.1]; exact h.ok.conn)
+  generalize hs2 : sendData s1 header false 0 = s2 at hcore e1 w1
+  have f2 := e1.frameFields
+  -- the payload part
+  have hs3 : sendMessageFrame s pl sync
+      = leaveFrameIfDone (sendData (advanceFramePtr (enterFrame s2) pl.length) (maskFrameChunk (enterFrame s2) pl) sync) := by
+    unfold sendMessageFrame
+    simp only [hst, if_false, h.begun, Bool.not_true, Bool.false_eq_true, hcore]
+    unfold sendMessageFrameData
+    have a1 : ¬ (enterFrame s2).st ≠ .opened := by
+      show ¬ s2.st ≠ .opened; rw [e1.st, hs1f.1, h.ok.st]; simp
+    have a2 : (enterFrame s2).begun = true := by
+      show s2.begun = true; rw [f2.2.2.2.2.2.2, hs1f.2.2.2.2.1]; exact h.begun
+    have a3 : ¬ (enterFrame s2).sendSt ≠ .insideFrame := by simp [enterFrame]
+    have a4 : ¬ ((enterFrame s2).framePtr + pl.length > (enterFrame s2).frameLen) := by
+      show ¬ (s2.framePtr + pl.length > s2.frameLen)
+      rw [f2.2.2.2.1, f2.1, hs1f.2.2.2.2.2.2.2.2.1, hs1f.2.2.2.2.2.2.1]; omega
+    simp only [a1, if_false, a2, Bool.not_true, Bool.false_eq_true, a3, a4]
+  have hmask : maskFrameChunk (enterFrame s2) pl
+      = (match (drawKey s).2 with
+         | some k => if decide (pl.length > 0) && s.cfg.applyMask then (Abverif.Xor.spec k 0 pl).1 else pl
+         | none => pl) := by
+    unfold maskFrameChunk
+    show (if s2.frameMasking = true then (match s2.frameKey with | some k => (Abverif.Xor.spec k s2.framePtr pl).1 | none => pl) else pl) = _
+    rw [f2.2.2.1, f2.2.1, f2.2.2.2.1, hs1f.2.2.2.2.2.2.2.2.2, hs1f.2.2.2.2.2.2.2.1, hs1f.2.2.2.2.2.2.2.2.1]
+    cases hkk : (drawKey s).2 with
+    | none => simp
+    | some k => cases hq : (decide (pl.length > 0) && s.cfg.applyMask) <;> simp [hq]
+  have hraw : encodeFrame false 0 (if first then (if binary then 2 else 1) else 0) (drawKey s).2 s.cfg.applyMask pl
+      = some (header ++ maskFrameChunk (enterFrame s2) pl) := by
+    unfold encodeFrame
+    rw [hel, hmask, ← hhdr]
+    unfold frameHeader
+    cases hkk : (drawKey s).2 with
+    | none => simp [List.append_assoc]
+    | some k => simp [List.append_assoc]
+  have e3 := sendData_SendEq (advanceFramePtr (enterFrame s2) pl.length) (maskFrameChunk (enterFrame s2) pl) sync 0
+  have w3 := sendData_wire (advanceFramePtr (enterFrame s2) pl.length) (maskFrameChunk (enterFrame s2) pl) sync 0
+    (by show s2.st ≠ .closed; rw [e1.st, hs1f.1]; exact hopen)
+    (by show ¬ (s2.lost = true ∧ s2.cfg.asyncio = true); rw [e1.lost, e1.cfg, hs1f.2.1, hs1f.2.2.1]; exact h.ok.conn)
+  have f3 := e3.frameFields
+  generalize hs4 : sendData (advanceFramePtr (enterFrame s2) pl.length) (maskFrameChunk (enterFrame s2) pl) sync 0 = s4
+    at hs3 e3 w3 f3
+  refine ⟨_, hraw, ?_, ?_⟩
+  · rw [hs3]
+    have : wire (leaveFrameIfDone s4) = wire s4 := by unfold leaveFrameIfDone; split <;> rfl
+    rw [this, w3]
+    show wire s2 ++ _ = _
+    rw [w1, hs1f.2.2.2.1, List.append_assoc]
+  · rw [hs3]
+    have hdone : s4.framePtr ≥ s4.frameLen := by
+      rw [f3.2.2.2.1, f3.1]
+      show s2.framePtr + pl.length ≥ s2.frameLen
+      rw [f2.2.2.2.1, f2.1, hs1f.2.2.2.2.2.2.2.2.1, hs1f.2.2.2.2.2.2.1]; omega
+    have hl : leaveFrameIfDone s4 = { s4 with sendSt := .insideMessage } := by
+      unfold leaveFrameIfDone; simp [hdone]
+    rw [hl]
+    have hsok : SenderOk c s4 := by
+      refine ⟨?_, ?_, ?_, ?_⟩
+      · rw [e3.st]; show s2.st = .opened; rw [e1.st, hs1f.1]; exact h.ok.st
+      · rw [e3.lost, e3.cfg]; show ¬ (s2.lost = true ∧ s2.cfg.asyncio = true)
+        rw [e1.lost, e1.cfg, hs1f.2.1, hs1f.2.2.1]; exact h.ok.conn
+      · rw [e3.cfg]; show c.applyMask = s2.cfg.applyMask; rw [e1.cfg, hs1f.2.2.1]; exact h.ok.am
+      · have : s4.masksFrames = s.masksFrames := by
+          unfold S.masksFrames; rw [e3.cfg]; show _ = _
+          have : (advanceFramePtr (enterFrame s2) pl.length).cfg = s.cfg := by
+            show s2.cfg = s.cfg; rw [e1.cfg, hs1f.2.2.1]
+          rw [this]
+        rw [this]; exact h.ok.mask
+    refine ⟨⟨hsok.st, hsok.conn, hsok.am, ?_⟩, ?_, ?_, rfl⟩
+    · have : ({ s4 with sendSt := .insideMessage } : S).masksFrames = s4.masksFrames := rfl
+      rw [this]; exact hsok.mask
+    · show s4.begun = true
+      rw [f3.2.2.2.2.2.2]; show s2.begun = true
+      rw [f2.2.2.2.2.2.2, hs1f.2.2.2.2.1]; exact h.begun
+    · show s4.sendOpcode = _
+      rw [f3.2.2.2.2.2.1]; show s2.sendOpcode = _
+      rw [f2.2.2.2.2.2.1, hs1f.2.2.2.2.2.1]; exact h.op
+
+/-- the frames of a streamed message, as sent, move the judge along -/
+theorem stream_frames_run (c : Ctx) (binary sync : Bool) (hpmce : c.pmce = false) :
+    ∀ (ps : List Bytes) (s : S) (j : J) (acc : Bytes) (evs0 : List Ev) (first : Bool),
+      StreamSt c s binary first → Pre c j binary acc evs0 first →
+      (∀ p ∈ ps, p.length < 2 ^ 63) →
+      ¬ (0 < c.maxMsg ∧ c.maxMsg < (acc ++ ps.flatten).length) →
+      (∀ p ∈ ps, ¬ (0 < c.maxFrame ∧ c.maxFrame < p.length)) →
+      ((!binary && c.utf8validate) = true → u8run .s0 (acc ++ ps.flatten) ≠ .rej) →
+      ∃ W jn, wire (ps.foldl (fun s p => sendMessageFrame s p sync) s) = wire s ++ W ∧
+        StreamSt c (ps.foldl (fun s p => sendMessageFrame s p sync) s) binary (first && ps.isEmpty) ∧
+        Pre c jn binary (acc ++ ps.flatten) evs0 (first && ps.isEmpty) ∧
+        ∀ after, JRuns c j (W ++ after) jn after := by
+  intro ps
+  induction ps with
+  | nil =>
+    intro s j acc evs0 first hs hpre _ _ _ _
+    refine ⟨[], j, by simp, by simpa using hs, by simpa using hpre, fun after => JRuns.refl _ _⟩
+  | cons p rest ih =>
+    intro s j acc evs0 first hs hpre hlen hmsg hfrm hutf
+    simp only [List.flatten_cons] at hmsg hutf
+    obtain ⟨raw, henc, hw, hs'⟩ := sendMessageFrame_wire c s binary first sync p hs (hlen p (by simp))
+    have hmsg1 : ¬ (0 < c.maxMsg ∧ c.maxMsg < acc.length + p.length) := by
+      intro hx; apply hmsg
+      refine ⟨hx.1, ?_⟩
+      simp only [List.length_append] at *
+      omega
+    obtain ⟨jn, hpost, hstep⟩ := frame_run c j binary first false acc p raw evs0 (drawKey s).2 s.cfg.applyMask
+      hpmce hs.ok.am (by rw [drawKey_isSome]; exact hs.ok.mask) hpre henc
+      ⟨hmsg1, hfrm p (by simp), fun hv => by
+          intro hr
+          apply hutf hv
+          rw [← List.append_assoc, u8run_append, hr, u8run_rej], fun hx => by cases hx⟩
+    unfold Post at hpost
+    simp only [Bool.false_eq_true, if_false] at hpost
+    obtain ⟨W, jf, hwire, hst, hpre', hruns⟩ := ih (sendMessageFrame s p sync) jn (acc ++ p) evs0 false hs'
+      (by unfold Pre; simpa using hpost)
+      (fun q hq => hlen q (by simp [hq]))
+      (by rw [List.append_assoc]; exact hmsg)
+      (fun q hq => hfrm q (by simp [hq]))
+      (fun hv => by rw [List.append_assoc]; exact hutf hv)
+    refine ⟨raw ++ W, jf, ?_, by simpa using hst, ?_, fun after => ?_⟩
+    · simp only [List.foldl_cons]
+      rw [hwire, hw, List.append_assoc]
+    · simp only [List.flatten_cons, ← List.append_assoc]
+      simpa using hpre'
+    · rw [List.append_assoc]
+      refine JRuns.step (hstep (W ++ after)) ?_ (hruns after)
+      have := encodeFrame_len2 _ _ _ _ _ _ _ henc
+      simp only [List.length_append]; omega
+
+/-- **C01, streaming API**: `beginMessage`, any non-empty sequence of `sendMessageFrame(payload)` calls, `endMessage`
+put on the wire what the judge reads as exactly one message: the concatenation of the frame payloads -/
+theorem stream_judged (c : Ctx) (s : S) (j : J) (ps : List Bytes) (binary sync : Bool) (hpmce : c.pmce = false)
+    (hs : SenderOk c s) (hg : s.sendSt = .ground) (hne : ps ≠ [])
+    (hlen : ∀ p ∈ ps, p.length < 2 ^ 63)
+    (hmsg : ¬ (0 < c.maxMsg ∧ c.maxMsg < ps.flatten.length))
+    (hfrm : ∀ p ∈ ps, ¬ (0 < c.maxFrame ∧ c.maxFrame < p.length))
+    (hutf : (!binary && c.utf8validate) = true → utf8Valid ps.flatten = true) (hj : j.inside = false) :
+    ∃ W jn, wire (endMessage (ps.foldl (fun s p => sendMessageFrame s p sync) (beginMessage s binary))) = wire s ++ W ∧
+      jn.inside = false ∧ jn.evs = j.evs ++ [.message ps.flatten binary false] ∧
+      ∀ after, JRuns c j (W ++ after) jn after := by
+  have hu : (!binary && c.utf8validate) = true → u8run .s0 ps.flatten = .s0 := by
+    intro hv; have := hutf hv; unfold utf8Valid at this; simpa using this
+  -- beginMessage
+  have hb : beginMessage s binary = { s with sendOpcode := if binary then 2 else 1, sendSt := .messageBegin, begun := true } := by
+    unfold beginMessage; simp [hs.st, hg]
+  have hsb : StreamSt c (beginMessage s binary) binary true := by
+    rw [hb]
+    exact ⟨⟨hs.st, hs.conn, hs.am, hs.mask⟩, rfl, rfl, rfl⟩
+  have hwb : wire (beginMessage s binary) = wire s := by rw [hb]; rfl
+  have hpre : Pre c j binary [] j.evs true := by unfold Pre; simp [hj]
+  obtain ⟨W, jn, hw, hst, hpre', hruns⟩ := stream_frames_run c binary sync hpmce ps (beginMessage s binary) j [] j.evs true
+    hsb hpre hlen (by simpa using hmsg) hfrm (fun hv => by simp only [List.nil_append]; rw [hu hv]; decide)
+  have hemp : ps.isEmpty = false := by
+    cases ps with
+    | nil => exact absurd rfl hne
+    | cons _ _ => rfl
+  simp only [hemp, Bool.and_false, List.nil_append] at hst hpre'
+  generalize ps.foldl (fun s p => sendMessageFrame s p sync) (beginMessage s binary) = s2 at hw hst
+  -- endMessage: an empty final continuation frame
+  obtain ⟨raw, henc⟩ := encodeFrame_some true 0 0 (drawKey s2).2 s2.cfg.applyMask [] (by simp)
+  have hwe := sendFrame_wire s2 0 [] true 0 false 0 raw (by rw [hst.ok.st]; decide) hst.ok.conn henc
+  obtain ⟨jf, hpost, hstep⟩ := frame_run c jn binary false true ps.flatten [] raw j.evs (drawKey s2).2 s2.cfg.applyMask
+    hpmce hst.ok.am (by rw [drawKey_isSome]; exact hst.ok.mask) hpre' (by simpa using henc)
+    ⟨by simpa using hmsg, by simp, fun hv => by rw [List.append_nil, hu hv]; decide,
+     fun _ hv => by rw [List.append_nil]; exact hu hv⟩
+  unfold Post at hpost
+  simp only [if_true, List.append_nil] at hpost
+  refine ⟨W ++ raw, jf, ?_, hpost.1, hpost.2, fun after => ?_⟩
+  · have : wire (endMessage s2) = wire (sendFrame s2 0 [] true 0 false 0) := by
+      unfold endMessage
+      simp [hst.ok.st, hst.begun]
+      rfl
+    rw [this, hwe, hw, hwb, List.append_assoc]
+  · rw [List.append_assoc]
+    refine (hruns (raw ++ after)).trans (JRuns.step (hstep after) ?_ (JRuns.refl _ _))
+    have := encodeFrame_len2 _ _ _ _ _ _ _ henc
+    simp only [List.length_append]; omega
+
 /-! ### many messages, and the round trip through a receiving engine -/
 
 theorem sendFrags_SendEq (op : Nat) (sync : Bool) : ∀ (frs : List (Bytes × Bool)) (s : S) (first : Bool),
